@@ -1,0 +1,21 @@
+//go:build verif
+
+package randutil
+
+import "io"
+
+// VerifDecide, when set by a deterministic simulator (build tag "verif" only),
+// replaces the runtime's coin in MaybeReadByte: true means "read one byte".
+var VerifDecide func() bool
+
+func verifMaybeRead(r io.Reader) bool {
+	f := VerifDecide
+	if f == nil {
+		return false
+	}
+	if f() {
+		var buf [1]byte
+		r.Read(buf[:])
+	}
+	return true
+}
